@@ -77,6 +77,42 @@ def sdk_entry(ctx, n):
     return tried
 
 
+OPT_SCRIPT = r"""
+import sys
+sys.path.insert(0, sys.argv[1])
+from netqasm.lang.parsing import parse_text_subroutine, deserialize
+bad = []
+for body in ["add R16 R0 R1", "load R0 @0[R255]", "ret_reg M-1", "array R0 @4294967297", "ret_arr @2147483648",
+             "wait_any @0[R0:R1000]", "rot_x Q0 300 4", "set R1 2147483648", "set R0 -2147483649", "qalloc Q16"]:
+    try:
+        sub = parse_text_subroutine("# NETQASM 1.0\n# APPID 0\n" + body + "\n")
+        raw = bytes(sub)
+    except Exception:
+        continue
+    back = deserialize(raw)
+    if [str(i) for i in back.instructions] != [str(i) for i in sub.instructions]:
+        bad.append((body, [str(i) for i in back.instructions]))
+print(repr(bad))
+"""
+
+
+def optimised_interpreter_entry(ctx):
+    """Entry point 4: the same rejections with the interpreter's assert statements compiled away (python -O)."""
+    import ast
+    import subprocess
+    r = subprocess.run(["/venv/bin/python", "-O", "-c", OPT_SCRIPT, ctx.repo], capture_output=True, text=True,
+                       env=dict(PYTHONDONTWRITEBYTECODE="1", PYTHONHASHSEED="0", PATH="/usr/bin:/bin"))
+    if r.returncode != 0:
+        ctx.broken.append("python -O entry point could not run: " + r.stderr[-300:])
+        return 0
+    bad = ast.literal_eval(r.stdout.strip().splitlines()[-1])
+    for body, got in bad:
+        ctx.violation("with `python -O` an unrepresentable operand is encoded to bytes that decode differently",
+                      dict(entry="python -O", source=body, decoded=got))
+    ctx.note_case(("python -O",))
+    return 10
+
+
 def run(ctx):
     ctx.rule = ("sequences with exactly one operand leaf (or the app id) just outside / far outside its range, mixed "
                 "with in-range sequences; accept/reject decision and bytes compared with the model's encode_checked; "
@@ -123,7 +159,8 @@ def run(ctx):
         ns = sdk_entry(ctx, 8 if ctx.tier == "quick" else 60)
     except ImportError:
         ns = 0
-    ctx.coverage["entry_points"] = dict(direct=len(cases), text=nt, sdk=ns)
+    no = optimised_interpreter_entry(ctx)
+    ctx.coverage["entry_points"] = dict(direct=len(cases), text=nt, sdk=ns, python_O=no)
     ctx.finish()
 
 
